@@ -13,6 +13,7 @@ CONSTANTS
   ClassSet = {"bnd", "data"}
   AnswerSet = {"terr", "ok", "502"}
   TailSet = {"good"}
+  RetrySet = {"none"}
   FixScanner = FALSE
   FixCursor = TRUE
   Fix5xx = TRUE
